@@ -656,6 +656,11 @@ impl File {
         self.failed_runid = None;
         self.is_override = false;
         self.is_generated = false;
+        // The file is the user's now: the checksum recorded by redo-stamp
+        // describes what we once produced, not what is there.  If we kept it, a
+        // later regeneration with the old content would count as "unchanged"
+        // and everything built from the user's version would stay stale.
+        self.csum = String::new();
         Ok(())
     }
 
@@ -663,6 +668,9 @@ impl File {
         self.update_stamp(v, false)?;
         self.failed_runid = None;
         self.is_override = true;
+        // See set_static: a hand-edited target no longer has the content its
+        // recorded checksum describes.
+        self.csum = String::new();
         Ok(())
     }
 
